@@ -46,6 +46,12 @@ def ty_src(t):
         return f"Enum[{t[1]}]"
     if k == "EnumVals":
         return f"Enum(values={t[1]!r})"
+    if k == "EnumSet":          # values given as a set literal (iteration order depends on PYTHONHASHSEED)
+        return "Enum(values={" + ", ".join(repr(v) for v in t[1]) + "})"
+    if k == "EnumTuple":
+        return f"Enum(values={tuple(t[1])!r})"
+    if k == "EnumItem":         # Enum['a', 'b']
+        return "Enum[" + ", ".join(repr(v) for v in t[1]) + "]"
     if k == "Ref":
         return t[1]
     if k == "py":
@@ -112,7 +118,7 @@ def valid_src(t, mod):
         return None if None in (kk, vv) or t[1][0] not in ("String", "Integer", "py") else "{" + kk + ": " + vv + "}"
     if k == "Enum":
         return f"list({t[1]})[0]"
-    if k == "EnumVals":
+    if k in ("EnumVals", "EnumSet", "EnumTuple", "EnumItem"):
         return repr(t[1][0])
     if k == "Ref":
         return f"_mk_{t[1]}()"
@@ -640,6 +646,40 @@ def const_cases(rng, tier):
         for apd in (True, False):
             cases.append({"suite": "stub", "mod": {"items": json.loads(json.dumps(items))}, "apd": apd, "dflt": apd,
                           "seeds": [], "const_value": cv})
+    return cases
+
+
+# ------------------------------------------------------------------ Enum fields over plain values (literals in the stub)
+
+HOSTILE_STRINGS = ['a"b', "it's", "back\\slash", "line\nbreak", "\u00e9t\u00e9", "tab\there", "", " ", '"""', "x'\"y", "#hash",
+                   '\\"', "]", "a, b", "None", "\r"]
+WORDS = ["shipped", "pending", "delivered", "returned", "packed", "lost", "open", "closed", "alpha", "beta", "gamma"]
+
+
+def enumvals_cases(rng, tier):
+    """Enum(values=...) fields whose values end up (or may end up) as literals inside the stub: every hostile string
+    (quotes, backslashes, line breaks, non-ASCII, brackets, commas) as list / tuple / Enum[...] values, top-level and
+    nested; values given as a SET of several strings, generated under other PYTHONHASHSEEDs as well"""
+    st = lambda name, fields, **kw: dict({"kind": "struct", "name": name, "style": "annot",
+                                         "bases": [{"b": "Structure"}], "fields": fields}, **kw)
+    cases = []
+    for i, h in enumerate(HOSTILE_STRINGS):
+        kind = ["EnumVals", "EnumTuple", "EnumItem"][i % 3]
+        items = [st("EA", [{"name": "v", "ty": [kind, [h, "plain"]]},
+                           {"name": "w", "ty": ["Array", ["EnumVals", [h]]]},
+                           {"name": "m", "ty": ["Map", ["String"], ["EnumVals", ["k", h]]]},
+                           {"name": "n", "ty": ["EnumVals", [1, 2]]},
+                           {"name": "o", "ty": ["AnyOf", ["EnumVals", [h, 3]], ["None"]]}], optional=["w", "m"]),
+                 st("EB", [{"name": "x", "ty": ["String"]}], bases=[{"b": "Partial", "of": "EA"}])]
+        cases.append({"suite": "stub", "mod": {"items": items}, "apd": True, "dflt": True, "seeds": [],
+                      "enumvals": "hostile:" + kind})
+    for k in range(2 if tier == "quick" else 6):
+        vals = rng.sample(WORDS, 6)
+        items = [st("ES", [{"name": "status", "ty": ["EnumSet", vals]},
+                           {"name": "tags", "ty": ["Array", ["EnumSet", rng.sample(WORDS, 5)]]},
+                           {"name": "nums", "ty": ["EnumSet", [3, 1, 2]]}], optional=["tags"])]
+        cases.append({"suite": "stub", "mod": {"items": items}, "apd": True, "dflt": True,
+                      "seeds": [1, 4242] if tier == "quick" else [1, 2, 3, 4242], "enumvals": "set-valued"})
     return cases
 
 
@@ -1207,6 +1247,11 @@ def run_impl(case):
             return res
         res["abstraction"] = check_abstraction(mod, spec_by_name)
         res["runtime"] = {n: runtime_view(mod, getattr(mod, n), it, spec_by_name) for n, it in spec_by_name.items()}
+        if text is not None:
+            try:
+                res["text"] = text_view(case, mod, text, spec_by_name, targets, res["runtime"], "stub" in res)
+            except Exception as e:      # the tie itself must not break a run: reported as a correspondence message
+                res["text_err"] = f"{type(e).__name__}: {e}"[:300]
         res["enums_iter"] = {it["name"]: [m.name for m in getattr(mod, it["name"])]
                              for it in case["mod"]["items"] if it["kind"] == "enum"}
         res["enums"] = {it["name"]: list(getattr(mod, it["name"]).__members__)
@@ -1268,6 +1313,369 @@ def check_abstraction(mod, spec_by_name):
     return problems
 
 
+# ------------------------------------------------------------------ the text tie (Sem/StubText.lean)
+
+import io
+import keyword
+import random
+import re
+import tokenize
+
+
+def ann_of_ast(node):
+    """Python expression AST -> the model's `Ann` (JSON); None = outside the modelled annotation language"""
+    def dotted(n):
+        parts = []
+        while isinstance(n, ast.Attribute):
+            parts.append(n.attr)
+            n = n.value
+        if isinstance(n, ast.Name):
+            parts.append(n.id)
+        elif isinstance(n, ast.Constant) and (n.value is True or n.value is False or n.value is None):
+            parts.append(repr(n.value))
+        else:
+            return None
+        return list(reversed(parts))
+    if isinstance(node, ast.Constant):
+        if node.value is Ellipsis:
+            return "..."
+        if node.value is None or node.value is True or node.value is False:
+            return {"n": [repr(node.value)]}
+        if isinstance(node.value, (str, int, float)):
+            return {"lit": 1}
+        return None
+    if isinstance(node, (ast.Name, ast.Attribute)):
+        d = dotted(node)
+        return None if d is None else {"n": d}
+    if isinstance(node, ast.Subscript):
+        h = dotted(node.value)
+        if h is None:
+            return None
+        items = node.slice.elts if isinstance(node.slice, ast.Tuple) else [node.slice]
+        args = [ann_of_ast(x) for x in items]
+        if not args or any(a is None for a in args):
+            return None
+        return {"s": [h, args]}
+    if isinstance(node, ast.List):
+        items = [ann_of_ast(x) for x in node.elts]
+        if any(a is None for a in items):
+            return None
+        return {"l": items}
+    return None
+
+
+def ann_of_text(text):
+    try:
+        return ann_of_ast(ast.parse(text, mode="eval").body)
+    except (SyntaxError, ValueError):
+        return None
+
+
+def _depth_after(text, depth=0):
+    """bracket depth after `text` (string literals skipped)"""
+    q = None
+    esc = False
+    for ch in text:
+        if q:
+            if esc:
+                esc = False
+            elif ch == "\\":
+                esc = True
+            elif ch == q:
+                q = None
+            continue
+        if ch in "'\"":
+            q = ch
+        elif ch in "([":
+            depth += 1
+        elif ch in ")]":
+            depth -= 1
+    return depth
+
+
+def scan_headers(text):
+    """every `def …: ...` / `class …:` header of the stub text, found by scanning lines (works on unparsable text)"""
+    lines = text.split("\n")
+    defs, classes = [], []
+    i = 0
+    while i < len(lines):
+        st = lines[i].strip()
+        if st.startswith("def "):
+            buf = [st]
+            depth = _depth_after(st)
+            j = i
+            while not (depth <= 0 and buf[-1].endswith("...")) and j + 1 < len(lines) and j - i < 80:
+                nxt = lines[j + 1].strip()
+                if nxt.startswith(("def ", "class ", "@")):
+                    break
+                j += 1
+                buf.append(nxt)
+                depth = _depth_after(nxt, depth)
+            defs.append("\n".join(buf))
+            i = j + 1
+            continue
+        if st.startswith("class ") and st.endswith(":"):
+            classes.append(st)
+        i += 1
+    return defs, classes
+
+
+def py_def_view(header):
+    """CPython's verdict on one header: {"name", "params"} or None"""
+    try:
+        tree = ast.parse(header)
+    except (SyntaxError, ValueError, MemoryError, RecursionError):
+        return None
+    if len(tree.body) != 1 or not isinstance(tree.body[0], ast.FunctionDef):
+        return None
+    fn = tree.body[0]
+    if len(fn.body) != 1 or not (isinstance(fn.body[0], ast.Expr) and isinstance(fn.body[0].value, ast.Constant)
+                                 and fn.body[0].value.value is Ellipsis):
+        return None
+    return {"name": fn.name, "params": full_params_ast(fn)}
+
+
+def py_class_view(header):
+    try:
+        tree = ast.parse(header + "\n    pass\n")
+    except (SyntaxError, ValueError):
+        return None
+    if len(tree.body) != 1 or not isinstance(tree.body[0], ast.ClassDef) or tree.body[0].keywords:
+        return None
+    return [tree.body[0].name, len(tree.body[0].bases)]
+
+
+_OPS = {"(", ")", "[", "]", ",", ":", "=", "*", "**", "/", ".", "->", "..."}
+_OK_KW = {"def", "class", "None", "True", "False"}
+_TRIPLE = ("'" * 3, '"' * 3)
+
+
+def header_tokens(header):
+    """token strings of a header (CPython's tokenizer); None if it does not tokenize"""
+    try:
+        toks = []
+        for t in tokenize.generate_tokens(io.StringIO(header).readline):
+            if t.type in (tokenize.NEWLINE, tokenize.NL, tokenize.ENDMARKER, tokenize.INDENT, tokenize.DEDENT,
+                          tokenize.COMMENT):
+                continue
+            toks.append((t.type, t.string))
+        return toks
+    except (tokenize.TokenError, SyntaxError, IndentationError):
+        return None
+
+
+def in_subset(header):
+    """is the header inside the token / expression subset that `Sem/StubText.lean` models exactly?"""
+    toks = header_tokens(header)
+    if toks is None:
+        return False
+    par = sq = 0
+    prev = None
+    for ty, sv in toks:
+        if ty == tokenize.NAME:
+            if keyword.iskeyword(sv) and sv not in _OK_KW:
+                return False
+            if not re.fullmatch(r"[A-Za-z_][A-Za-z0-9_]*", sv):
+                return False
+        elif ty == tokenize.NUMBER:
+            if not re.fullmatch(r"[0-9][0-9A-Za-z_.]*", sv):
+                return False
+        elif ty == tokenize.STRING:
+            if sv[0] not in "'\"" or sv.startswith(_TRIPLE) or "\n" in sv or (prev and prev[0] == tokenize.STRING):
+                return False
+        elif ty == tokenize.OP:
+            if sv not in _OPS:
+                return False
+            if sv == "(":
+                par += 1
+                if par > 1 or sq:
+                    return False
+            elif sv == ")":
+                par -= 1
+                if par < 0 or sq:
+                    return False
+            elif sv == "[":
+                sq += 1
+            elif sv == "]":
+                sq -= 1
+                if sq < 0:
+                    return False
+            elif sv in ("*", "**", "/"):
+                if sq or par != 1 or prev is None or prev[1] not in ("(", ","):
+                    return False
+            elif sv == ":" and sq:
+                return False
+        else:
+            return False
+        prev = (ty, sv)
+    return True
+
+
+MUT_OPS = ["swap-items", "move-kw", "toggle-default", "insert-marker", "del-token", "dup-token",
+           "swap-adjacent", "del-comma", "add-comma", "drop-item", "nest-default"]
+
+
+def mutate_header(rng, header):
+    """one token-level mutation of a real `def` header (the places signatures break: order, markers, commas,
+    defaults, brackets); text with one blank between tokens.  Returns (op, text) or None."""
+    toks = header_tokens(header)
+    if not toks or len(toks) < 6:
+        return None
+    ts = [sv for _, sv in toks]
+    try:
+        lo = ts.index("(")
+    except ValueError:
+        return None
+    depth, cuts, hi = 0, [lo], None
+    for k in range(lo, len(ts)):
+        if ts[k] in ("(", "["):
+            depth += 1
+        elif ts[k] in (")", "]"):
+            depth -= 1
+            if depth == 0:
+                hi = k
+                break
+        elif ts[k] == "," and depth == 1:
+            cuts.append(k)
+    if hi is None:
+        return None
+    bounds = cuts + [hi]
+    items = [ts[bounds[i] + 1:bounds[i + 1]] for i in range(len(bounds) - 1)]
+    op = rng.choice(MUT_OPS)
+    if op in ("swap-items", "move-kw", "toggle-default", "insert-marker", "drop-item", "add-comma"):
+        if len(items) < 2:
+            return None
+        items = [list(x) for x in items]
+        if op == "swap-items":
+            a, b = rng.sample(range(len(items)), 2)
+            items[a], items[b] = items[b], items[a]
+        elif op == "move-kw":
+            src = next((i for i, x in enumerate(items) if x[:1] in (["**"], ["*"], ["/"])), None)
+            if src is None:
+                items.insert(rng.randrange(len(items) + 1), rng.choice([["**", "kw"], ["*"], ["/"], ["*", "args"]]))
+            else:
+                x = items.pop(src)
+                items.insert(rng.randrange(len(items) + 1), x)
+        elif op == "toggle-default":
+            i = rng.randrange(len(items))
+            if "=" in items[i]:
+                items[i] = items[i][:items[i].index("=")]
+            else:
+                items[i] = items[i] + ["=", "None"]
+        elif op == "insert-marker":
+            items.insert(rng.randrange(len(items) + 1), [rng.choice(["*", "/", "**"])])
+        elif op == "drop-item":
+            items.pop(rng.randrange(len(items)))
+        elif op == "add-comma":
+            items.insert(rng.randrange(len(items) + 1), [])
+        inner = []
+        for i, x in enumerate(items):
+            inner += ([","] if i else []) + x
+        out = ts[:lo + 1] + inner + ts[hi:]
+    else:
+        out = list(ts)
+        cand = [k for k in range(len(out)) if out[k][:1] not in "'\"0123456789"]
+        if not cand:
+            return None
+        k = rng.choice(cand)
+        if op == "del-token":
+            del out[k]
+        elif op == "dup-token":
+            out.insert(k, out[k])
+        elif op == "swap-adjacent":
+            if k + 1 >= len(out) or out[k + 1][:1] in "'\"0123456789":
+                return None
+            out[k], out[k + 1] = out[k + 1], out[k]
+        elif op == "del-comma":
+            cs = [i for i, x in enumerate(out) if x == ","]
+            if not cs:
+                return None
+            del out[rng.choice(cs)]
+        elif op == "nest-default":
+            br = [i for i, x in enumerate(out) if x == "]"]
+            if not br:
+                return None
+            i = rng.choice(br)
+            out[i:i] = ["=", "None"]
+    return op, " ".join(out)
+
+
+def text_view(case, mod, text, spec_by_name, targets, runtime, parsed_ok):
+    """what goes to the Lean driver (`wire`) and CPython's own verdicts on the same header texts (`py`)"""
+    defs, classes = scan_headers(text)
+    key = case_key(case)
+    rng = random.Random(int(key, 16))
+    muts, mut_ops = [], []
+    pool = [d for d in defs if len(d) < 3000]
+    for _ in range(min(8, 2 * len(pool))):
+        m = mutate_header(rng, rng.choice(pool))
+        if m is not None and m[1] not in muts:
+            mut_ops.append(m[0])
+            muts.append(m[1])
+    wire = {"defs": defs, "muts": muts, "cls": classes, "classes": []}
+    py = {"defs": [py_def_view(d) for d in defs], "muts": [py_def_view(d) for d in muts],
+          "cls": [py_class_view(c) for c in classes], "mut_ops": mut_ops,
+          "defs_subset": [in_subset(d) for d in defs], "muts_subset": [in_subset(d) for d in muts],
+          "skipped": {}}
+    if not parsed_ok:
+        return {"wire": wire, "py": py}
+    try:
+        from typedpy.stubs.type_info_getter import get_type_info
+    except Exception as e:     # the generator was reorganised: no per-class tie, the header checks remain
+        py["skipped"]["*"] = f"get_type_info unavailable: {e}"
+        return {"wire": wire, "py": py}
+    try:
+        from typedpy.stubs.type_helpers import _get_bases_for_structure
+    except Exception:
+        _get_bases_for_structure = None
+    tree = ast.parse(text)
+    nodes = {n.name: n for n in tree.body if isinstance(n, ast.ClassDef)}
+    seg = lambda node: ast.get_source_segment(text, node)
+    lines = text.split("\n")
+    for ti, name in zip(targets, spec_by_name):
+        cls = getattr(mod, name)
+        node = nodes.get(name)
+        if node is None:
+            continue
+        meths = {}
+        for st in node.body:
+            if isinstance(st, ast.FunctionDef):
+                meths.setdefault(st.name, []).append(st)
+        if not meths:
+            continue        # `pass` body
+        anns, bad = [], None
+        for n, f in cls.get_all_fields_by_name().items():
+            if n in cls._constants:
+                continue
+            t = get_type_info(f, vars(mod), set())
+            a = ann_of_text(t) if isinstance(t, str) else None
+            if a is None:
+                bad = f"{n}: {t!r}"
+                break
+            anns.append([n, a])
+        if bad:
+            py["skipped"][name] = "annotation outside the modelled language: " + bad
+            continue
+        entry = {"i": ti, "anns": anns}
+        one = lambda mn: seg(meths[mn][0]) if len(meths.get(mn, [])) == 1 else None
+        entry["init"] = None if runtime[name]["custom"] else one("__init__")
+        for hk, mn in HELPERS.items():
+            entry[hk] = one(mn)
+        if _get_bases_for_structure is not None:
+            try:
+                bs = [b.split(".") for b in _get_bases_for_structure(cls, vars(mod), set())]
+                if all(re.fullmatch(r"[A-Za-z_][A-Za-z0-9_]*", x) for b in bs for x in b):
+                    entry["bases"] = bs
+                    entry["header"] = lines[node.lineno - 1].strip()
+            except Exception:
+                pass
+        names = {n for n, _ in anns}
+        entry["attrs"] = [[st.target.id, seg(st)] for st in node.body
+                          if isinstance(st, ast.AnnAssign) and isinstance(st.target, ast.Name) and st.target.id in names]
+        wire["classes"].append(entry)
+    return {"wire": wire, "py": py}
+
+
 # ------------------------------------------------------------------ driver line / judging helpers
 
 def line(case, impl):
@@ -1280,6 +1688,8 @@ def line(case, impl):
         # the (name, module) items, handed to the model in reverse order and doubled (a set has no order/multiplicity)
         items = [[x.split(" import ", 1)[1], x[len("from "):].split(" import ", 1)[0]] for x in ex]
         l["imports"] = list(reversed(items)) + items
+    if "text" in impl and "table" in impl:
+        l["text"] = impl["text"]["wire"]
     return l
 
 
@@ -1299,6 +1709,8 @@ def tags(case, impl, model):
         out.append("const-value:" + case["const_value"])
     if case.get("mi"):
         out.append("multi-base-same-field:" + case["mi"])
+    if case.get("enumvals"):
+        out.append("enum-values:" + case["enumvals"])
     if case.get("sig_site"):
         out += [f"sig-site:{case['sig_site']}", f"sig-default:{case['sig_default']}"]
     if "unbuildable" in impl:
@@ -1335,6 +1747,17 @@ def tags(case, impl, model):
         out.append("behav:" + ("run" if rv.get("behav") and rv["behav"].get("base_ok") else "skipped"))
     if impl.get("seeds"):
         out.append(f"hashseeds:{len(impl['seeds'])}")
+    tp = (impl.get("text") or {}).get("py")
+    mt = ((model.get("out") or {}) if isinstance(model, dict) else {}).get("text")
+    if tp and mt:
+        for i, p in enumerate(tp["muts"]):
+            lean_ok = bool(mt["muts"][i].get("lex")) and mt["muts"][i].get("parse") is not None
+            out.append(f"mutated-header:{tp['mut_ops'][i]}:" + ("accepted" if p is not None else "rejected")
+                       + ("" if tp["muts_subset"][i] or lean_ok == (p is not None) else ":outside-subset"))
+        out += ["real-header:" + ("parsed" if p is not None else "unparsable") for p in tp["defs"]]
+        for c in mt["classes"]:
+            out.append("text-tie:" + ("class" if c["domain"] else "outside-domain"))
+        out += ["text-tie:skipped(annotation-language)" for n in tp["skipped"] if n != "*"]
     return out
 
 
